@@ -207,7 +207,7 @@ class Guard(object):
             setattr(mod, "assert_level_constraint", orig)
 
 
-def validate(data, limit=5, callback=None):
+def validate(data, limit=5, callback=None, info=None):
     """run the REAL validator with the guard -> 'OK' | '<ConformanceError class>' | 'CRASH:<type>' |
     'CRASH-IN-REPORT:<class>:<type>' | 'OUT-OF-SCOPE' | 'TIMEOUT'"""
     from vc2_conformance import decoder
@@ -231,8 +231,14 @@ def validate(data, limit=5, callback=None):
                 res = type(e).__name__
                 try:
                     e.explain()
-                    e.bitstream_viewer_hint()
-                    e.offending_offset()
+                    hint = e.bitstream_viewer_hint()
+                    off = e.offending_offset()
+                    if info is not None:
+                        info["hint_uses_offset"] = "{offset}" in hint  # where the error is, as the exception itself says / where the reader stands
+                        from vc2_conformance.decoder.io import tell
+                        from vc2_conformance.bitstream.io import to_bit_offset
+                        info["offending_offset"] = off
+                        info["tell"] = to_bit_offset(*tell(st))
                     str(e)
                 except Timeout:
                     return "TIMEOUT"
